@@ -224,8 +224,17 @@ def run_pdsh_Q(pdsh, header):
     while out and out[-1] == "":
         out.pop()
     last = out[-1] if out else ""
-    if last.endswith("[truncated]"):
-        # -Q prints through a 1024-byte buffer; for longer lists let pdsh act on the list instead
+    if last.endswith("[truncated]") or len(last) > 900:
+        # -Q prints through a 1024-byte buffer.  For longer lists first ask for the compressed form (-q) and expand
+        # that with the small expander; only if that does not fit either let pdsh act on the list
+        try:
+            q = subprocess.run([pdsh, "-q", "-w", header], stdout=subprocess.PIPE, stderr=subprocess.PIPE,
+                               env={"PATH": "/usr/bin:/bin"}, timeout=60)
+            ql = [l for l in q.stdout.decode("latin-1").split("\n") if l][-1:] or [""]
+            if q.returncode == 0 and ql[0] and "[truncated]" not in ql[0] and len(ql[0]) < 900:
+                return ("ok", expand_ranged(ql[0]))
+        except (subprocess.TimeoutExpired, ValueError):
+            pass
         try:
             p = subprocess.run([pdsh, "-R", "exec", "-N", "-f", "64", "-w", header, "echo", "%h"],
                                stdout=subprocess.PIPE, stderr=subprocess.PIPE, env={"PATH": "/usr/bin:/bin"},
@@ -236,6 +245,33 @@ def run_pdsh_Q(pdsh, header):
             return ("refused", p.stderr.decode("latin-1")[-200:].strip())
         return ("ok", p.stdout.decode("latin-1").split())
     return ("ok", [h for h in last.split(",")] if last else [])
+
+
+def expand_ranged(e):
+    """small expander for pdsh's own compressed output `pre[a-b,c]suf,...` (width = width of the lower bound)"""
+    toks, cur, lvl = [], "", 0
+    for ch in e:
+        if ch == "," and lvl == 0:
+            toks.append(cur)
+            cur = ""
+        else:
+            lvl += (ch == "[") - (ch == "]")
+            cur += ch
+    toks.append(cur)
+    hosts = []
+    for tok in toks:
+        if "[" in tok:
+            pre, rest = tok.split("[", 1)
+            rng, suf = rest.split("]", 1)
+            for item in rng.split(","):
+                if "-" in item:
+                    a, b = item.split("-", 1)
+                    hosts += [pre + str(v).zfill(len(a)) + suf for v in range(int(a), int(b) + 1)]
+                else:
+                    hosts.append(pre + item + suf)
+        else:
+            hosts.append(tok)
+    return hosts
 
 
 def lat(s):
@@ -250,8 +286,8 @@ def hxl(l):
     return ",".join(hx(x) for x in l) if l else "~"
 
 
-def model_line(case, repaired):
-    return "%s %d %s\n" % ("c" if case["mode"] == "c" else "n", int(repaired), hexs(case["input"]))
+def model_line(case, repaired, lim=0):
+    return "%s %d %d %s\n" % ("c" if case["mode"] == "c" else "n", int(repaired), int(lim), hexs(case["input"]))
 
 
 def parse_model(line, mode):
@@ -303,8 +339,8 @@ def longest_run(hosts_expanded_model):
 
 # ------------------------------------------------------------------ judging one batch of cases
 class Judge:
-    def __init__(self, ctx, script, pdsh, repaired):
-        self.ctx, self.script, self.pdsh, self.repaired = ctx, script, pdsh, repaired
+    def __init__(self, ctx, script, pdsh, repaired, lim=0):
+        self.ctx, self.script, self.pdsh, self.repaired, self.lim = ctx, script, pdsh, repaired, lim
         self.workdir = os.path.join(ctx.scratch, "dshbak-d")
         os.makedirs(self.workdir, exist_ok=True)
         self.pdsh_cache = {}
@@ -327,7 +363,7 @@ class Judge:
         self.expand(headers)
         models = [None] * len(cases)
         if use_model:
-            mlines = ctx.model("dshbak", "".join(model_line(c, self.repaired) for c in cases), args=["model"])
+            mlines = ctx.model("dshbak", "".join(model_line(c, self.repaired, self.lim) for c in cases), args=["model"])
             models = [parse_model(l, c["mode"]) for l, c in zip(mlines, cases)]
         # oracle input: real blocks, -c headers replaced by the real pdsh's expansion
         def spec_line(c, r, recs_list):
@@ -340,7 +376,23 @@ class Judge:
                 else:
                     bl.append("%s=%s" % (hx(h), hxl(lines)))
             return "%s %s | %s\n" % ("c" if c["mode"] == "c" else "n", recs, ";".join(bl) or ".")
-        slines = ctx.model("dshbak", "".join(spec_line(c, r, c["recs"]) for c, r in zip(cases, reals)), args=["spec"])
+        # the Lean specification's executable form is quadratic (list membership): inputs with thousands of hosts are
+        # judged by the same clauses written with sets (py_spec); on all other inputs both are run and must agree
+        huge = [len(c["recs"]) > 3000 for c in cases]
+        small_lines = ctx.model("dshbak", "".join(spec_line(c, r, c["recs"]) for c, r, hg in zip(cases, reals, huge)
+                                                  if not hg), args=["spec"])
+        it = iter(small_lines)
+        slines = []
+        for c, r, hg in zip(cases, reals, huge):
+            py = self.py_spec(c, r)
+            if hg:
+                slines.append(py)
+            else:
+                ls = next(it)
+                if (ls == "ok") != (py == "ok"):
+                    ctx.disagreement("Dshbak/Spec.lean vs its set-based transcription", "lean `%s` python `%s`" % (ls, py),
+                                     case_json(c))
+                slines.append(ls)
         # D21 classification: is the ONLY deviation the missing final (unterminated) record?
         again = [i for i, (c, s) in enumerate(zip(cases, slines)) if c["stream"] == "unterminated" and s != "ok"]
         only_last = {}
@@ -352,6 +404,41 @@ class Judge:
         for i, (c, r, m, s) in enumerate(zip(cases, reals, models, slines)):
             out.append(self.verdicts(c, r, m, s, only_last.get(i, False)))
         return out
+
+    def py_spec(self, c, r):
+        """Spec.explainNormal / Spec.explainCoalesced clause by clause, with dictionaries"""
+        lines_of = {}
+        for t, b in c["recs"]:
+            lines_of.setdefault(t, []).append(b)
+        if c["mode"] != "c":
+            heads = [h for h, _ in r["blocks"]]
+            if len(set(heads)) != len(heads):
+                return "bad a label has two blocks"
+            if set(lines_of) - set(heads):
+                return "bad a label of the input has no block"
+            if set(heads) - set(lines_of):
+                return "bad a block for a label that is not in the input"
+            if any(lines_of[h] != l for h, l in r["blocks"]):
+                return "bad a block does not hold exactly its label's lines in order"
+            return "ok"
+        blocks = []
+        for h, lines in r["blocks"]:
+            st, hosts = self.pdsh_cache.get(h, ("refused", "not run"))
+            blocks.append((hosts if st == "ok" else [], lines))
+        flat = [t for hs, _ in blocks for t in hs]
+        if len(set(flat)) != len(flat):
+            return "bad a host is under two headers (or twice under one)"
+        if set(lines_of) - set(flat):
+            return "bad a host of the input is under no header"
+        if set(flat) - set(lines_of):
+            return "bad a header names a host that is not in the input"
+        if any(lines_of[t] != lines for hs, lines in blocks for t in hs):
+            return "bad a host is under a header whose body is not its output"
+        if any(not hs for hs, _ in blocks):
+            return "bad a header without hosts"
+        if len({tuple(l) for _, l in blocks}) != len(blocks):
+            return "bad the same body is printed twice"
+        return "ok"
 
     def verdicts(self, c, r, m, s, only_last_missing=False):
         v = []
@@ -512,7 +599,12 @@ def run(ctx):
                            stderr=subprocess.PIPE)
         if b"[-1]foo" not in p.stdout:
             repaired += 2       # digit-free names are no longer given to comp (F19-EMPTYSTEM repaired)
-        judge = Judge(ctx, script, pdsh, repaired)
+        # F19-LONGRUN repaired?  the length of the first range element of a 16400-host run is the limit
+        p = subprocess.run(["perl", script, "-c"], input="".join("n%d: x\n" % i for i in range(1, 16401)).encode(),
+                           stdout=subprocess.PIPE, stderr=subprocess.PIPE)
+        m = re.search(rb"^n\[1-(\d+)([,\]])", p.stdout, re.M)
+        lim = int(m.group(1)) if (m and m.group(2) == b",") else 0
+        judge = Judge(ctx, script, pdsh, repaired, lim)
         if ctx.replay:
             j = json.load(open(ctx.replay))
             cases = [case_from_json(j["case"]["case"] if "case" in j.get("case", {}) else j["case"])]
@@ -528,7 +620,8 @@ def run(ctx):
                 cases += subset_cases(["a1-ib", "a2-ib", "a02-ib", "a3", "a4", "b1a3", "b1a4", "a", "b-ib", "a03-ib"])
         dist = {"modes": {}, "streams": {}, "hosts_per_case": {}, "headers_expanded_by_pdsh": 0,
                 "bracketed_headers": 0, "process_launches": 0, "script_form": {0: "unchanged", 1: "D21-repaired", 2: "EMPTYSTEM-repaired",
-                                                         3: "D21+EMPTYSTEM-repaired"}[repaired]}
+                                                         3: "D21+EMPTYSTEM-repaired"}[repaired] +
+                               ("+LONGRUN-limit-%d" % lim if lim else "")}
         distinct = set()
         nshrunk = 0
         CH = 400
@@ -569,7 +662,7 @@ def run(ctx):
                 recs = [("n%d" % i, "x") for i in range(1, nrun + 1)]
                 lc = {"stream": "plain", "mode": "c", "recs": recs, "hash_seed": 3,
                       "input": "".join("n%d: x\n" % i for i in range(1, nrun + 1)).encode()}
-                res = judge.judge([lc], use_model=(not ctx.quick() and nrun == 16385))[0]
+                res = judge.judge([lc], use_model=(nrun == 16385 and (lim > 0 or not ctx.quick())))[0]
                 cov["evaluations"] += 1
                 dist["streams"]["longrun"] = dist["streams"].get("longrun", 0) + 1
                 for kind, sig, what in res["verdicts"]:
